@@ -277,7 +277,9 @@ def run_rec(ctx, exe, scns, tag, nshards=None, timeout=900):
                 m = re.search(r"(ERROR: AddressSanitizer: [\w-]+|runtime error: [^\n]+|ERROR: LeakSanitizer[^\n]*|SUMMARY: [^\n]+)", rep)
                 what = (m.group(1) if m else "recorder died (exit %d)" % p.returncode)
                 fr = re.findall(r"#\d+ 0x[0-9a-f]+ in (\w+) ", rep)
-                fr = [x for x in fr if not x.startswith("__") and x not in ("main", "run_scenario", "api_data")][:3]
+                fr = [x for x in fr if not x.startswith("__") and not x.startswith("vf_") and x not in ("main", "run_scenario", "api_data", "out", "in")][:3]
+                if "malloc_usable_size() for pointer which is not owned" in rep:
+                    what = "double-free (allocator wrapper called on a block that is not live)"
                 crashes += 1
                 # the Reset record of the crashed scenario was flushed by the recorder; if the log does not end inside that
                 # scenario (nothing of it was written), open it here
